@@ -343,7 +343,7 @@ theorem code_copy_paths_follow_the_wire
     (hi : (if impl c.StreamConn then rf ⟨c.StreamConn.val⟩ r else copyIn c.StreamConn r).1 = (MConn.copied si : Int)) :
     (∃ c', Gen.Code.measuredConn.WriteTo copyOut c w = some (c', (copyOut w c.StreamConn).1, (copyOut w c.StreamConn).2) ∧
         Tie.MConn.abs c' = MConn.step (Tie.MConn.abs c) (.writeTo so)) ∧
-    (∃ c', Gen.Code.measuredConn.ReadFrom impl rf copyIn c r =
+    (∃ c', Gen.Code.measuredConn.ReadFrom rf impl copyIn c r =
           some (c', (if impl c.StreamConn then rf ⟨c.StreamConn.val⟩ r else copyIn c.StreamConn r).1,
                     (if impl c.StreamConn then rf ⟨c.StreamConn.val⟩ r else copyIn c.StreamConn r).2) ∧
         Tie.MConn.abs c' = MConn.step (Tie.MConn.abs c) (.readFrom (impl c.StreamConn) si)) :=
